@@ -67,6 +67,9 @@ def stdlib(k, text, c):
 
 def run(ctx):
     from oslo_utils import netutils
+    from vf import purity
+    _rec = purity.Recorder(netutils, ['is_valid_ipv4', 'is_valid_ipv6', 'is_valid_ip', 'is_valid_cidr', 'is_valid_ipv6_cidr', 'is_valid_mac', 'is_valid_port', 'is_valid_icmp_type', 'is_valid_icmp_code'], every=7)
+    _rec.__enter__()
     quick = ctx.quick
     ctx.assumptions += [
         'is_valid_ip is exercised with four-part canonical dotted quads only for IPv4 (it deliberately accepts inet_aton short forms, leading zeros and hex octets)',
@@ -188,6 +191,8 @@ def run(ctx):
                               '%s(%r) raises %s instead of answering' % (fn.__name__, text, got))
     ctx.cov['evaluations'] += t
     ctx.stage('totality', calls=t)
+    _rec.__exit__()
+    _rec.replay(ctx, 'c11')
     # binding self-test
     saved = netutils._is_int_in_range
     try:
